@@ -1,5 +1,247 @@
 import GnpyModel.Scalar
-/- model file Select (see DESIGN.md §2) -/
-namespace Gnpy
+import GnpyModel.Edfa
+/-
+C10 — automatic amplifier selection (gnpy/core/network.py `select_edfa`, `filter_edfa_list_based_on_targets`,
+`edfa_nf`, `get_node_restrictions`, `preselect_multiband_amps`, `raman_allowed` inside `set_one_amplifier`;
+gnpy/core/equipment.py `find_type_varieties`).
 
-end Gnpy
+The equipment library is an association list in dict (insertion) order. Frequencies are integer Hz.
+The noise figure used for ranking is the C04 model (`Gnpy.Edfa.ampNfAvg`) at the load `edfa_nf` fixes
+(`pin_db = 0`, `nch = 88`, `slot_width = 50e9`); `none` = −∞ dB (OpenROADM booster).
+-/
+namespace Gnpy.Select
+open Gnpy.Edfa
+
+section
+variable {α : Type} [Add α] [Sub α] [Mul α] [Div α] [Neg α] [NatCast α] [LT α] [LE α]
+  [DecidableLT α] [DecidableLE α] [Transc α]
+
+/-- one library entry (`equipment['Edfa'][name]`) -/
+structure AmpSpec (α : Type) where
+  name : String
+  /-- `type_def == 'multi_band'` ⇒ `some members` -/
+  multiBand : Option (List String)
+  raman : Bool
+  allowedForDesign : Bool
+  fMin : Nat
+  fMax : Nat
+  gainFlatmax : α
+  gainMin : α
+  pMax : α
+  nf : AmpNf α
+
+def AmpSpec.isMulti (a : AmpSpec α) : Bool := a.multiBand.isSome
+
+structure Band where
+  fMin : Nat
+  fMax : Nat
+
+def AmpSpec.covers (a : AmpSpec α) (b : Band) : Bool := decide (a.fMin ≤ b.fMin) && decide (b.fMax ≤ a.fMax)
+
+/-! ### `get_node_restrictions` -/
+
+/-- what `get_node_restrictions` looks at around the amplifier node -/
+structure NodeCtx where
+  /-- `node.params.type_variety` (`""` when the user gave none) -/
+  typeVariety : String
+  /-- `node.variety_list` (`None` or a list) -/
+  varietyList : Option (List String)
+  /-- `some booster_variety_list` when the previous node is a ROADM -/
+  prevRoadmBooster : Option (List String)
+  /-- `some preamp_variety_list` when the next node is a ROADM -/
+  nextRoadmPreamp : Option (List String)
+
+/-- the restriction list in force: own variety list, else ROADM booster list, else ROADM preamp list, else `[]`
+(an empty list is falsy and falls through) -/
+def restrictionList (c : NodeCtx) : List String :=
+  match c.varietyList with
+  | some (x :: xs) => x :: xs
+  | _ =>
+    match c.prevRoadmBooster with
+    | some (x :: xs) => x :: xs
+    | _ =>
+      match c.nextRoadmPreamp with
+      | some (x :: xs) => x :: xs
+      | _ => []
+
+/-- `n in restrictions or (not restrictions and a.allowed_for_design)` -/
+def allowedBy (r : List String) (a : AmpSpec α) : Bool := r.contains a.name || (r.isEmpty && a.allowedForDesign)
+
+/-- `get_node_restrictions` for an `Edfa` node; `band` = first design band -/
+def nodeRestrictions (lib : List (AmpSpec α)) (c : NodeCtx) (band : Band) : List String :=
+  if c.typeVariety ≠ "" then [c.typeVariety]
+  else
+    let r := restrictionList c
+    (lib.filter (fun a => !a.isMulti && a.covers band && allowedBy r a)).map (fun a => a.name)
+
+def lookup (lib : List (AmpSpec α)) (n : String) : Option (AmpSpec α) := lib.find? (fun a => a.name == n)
+
+/-- `get_node_restrictions` for a `Multiband_amplifier` node -/
+def nodeRestrictionsMulti (lib : List (AmpSpec α)) (c : NodeCtx) (bands : List Band) : List String :=
+  if c.typeVariety ≠ "" then [c.typeVariety]
+  else
+    let r := restrictionList c
+    let multi := lib.filter (fun a => a.isMulti && allowedBy r a)
+    let members (m : AmpSpec α) : List String := m.multiBand.getD []
+    let edfaEqpt : List String :=
+      multi.flatMap (fun m => (members m).flatMap (fun t => bands.filterMap (fun b =>
+        match lookup lib t with
+        | some a => if a.covers b then some t else none
+        | none => none)))
+    (multi.filter (fun m => (members m).all (fun t => edfaEqpt.contains t))).map (fun a => a.name)
+
+/-- `raman_allowed`: the previous node is a fibre and all its loss coefficients (dB/m) are below
+`max_fiber_lineic_loss_for_raman * 1e-3` -/
+def ramanAllowed (prevIsFiber : Bool) (lossCoef : List α) (limit : α) : Bool :=
+  prevIsFiber && lossCoef.all (fun l => decide (l < limit * (((1:Nat) : α) / ((1000:Nat) : α))))
+
+/-! ### `filter_edfa_list_based_on_targets`, `select_edfa` -/
+
+/-- `Edfa_list(variety, power, gain_min, nf, …)` -/
+structure Cand (α : Type) where
+  variety : String
+  power : α
+  gainMin : α
+  nf : Option α
+  raman : Bool
+
+/-- `edfa_nf(gain_target, amp)` -/
+def edfaNf (a : AmpSpec α) (gain : α) : Option α :=
+  (ampNfAvg a.nf { pinDb := Edfa.zero, nch := ((88:Nat) : α), slotWidth := c50G } gain).1
+
+/-- `min(pin + gain_flatmax + target_extended_gain, p_max) - power_target` -/
+def powerAttr (a : AmpSpec α) (gain power ext : α) : α :=
+  smin (power - gain + a.gainFlatmax + ext) a.pMax - power
+
+/-- `gain_target + 3 - gain_min` for EDFAs, `gain_target - gain_min` for Raman -/
+def gainMinAttr (a : AmpSpec α) (gain : α) : α :=
+  if a.raman then gain - a.gainMin else gain + ((3:Nat) : α) - a.gainMin
+
+def cand (a : AmpSpec α) (gain power ext : α) : Cand α :=
+  { variety := a.name, power := powerAttr a gain power ext, gainMin := gainMinAttr a gain,
+    nf := edfaNf a gain, raman := a.raman }
+
+/-- `edfa_list` (the non-Raman models, library order) -/
+def edfaList (lib : List (AmpSpec α)) (gain power ext : α) : List (Cand α) :=
+  (lib.filter (fun a => !a.raman)).map (fun a => cand a gain power ext)
+
+/-- `raman_list` (empty unless Raman is allowed) -/
+def ramanList (lib : List (AmpSpec α)) (ramanOk : Bool) (gain power ext : α) : List (Cand α) :=
+  if ramanOk then (lib.filter (fun a => a.raman)).map (fun a => cand a gain power ext) else []
+
+def maxPower : List (Cand α) → α
+  | [] => Edfa.zero
+  | c :: cs => cs.foldl (fun m x => if m < x.power then x.power else m) c.power
+
+/-- the gain+power stage of the filter on a non-empty gain-acceptable list -/
+def powerStage (l : List (Cand α)) : List (Cand α) :=
+  let ok := l.filter (fun x => decide (Edfa.zero < x.power))
+  if ok.isEmpty then
+    let pm := maxPower l
+    l.filter (fun x => decide (-(c03 : α) < x.power - pm))
+  else ok
+
+/-- `filter_edfa_list_based_on_targets` on the two candidate lists; `none` = ConfigurationError -/
+def acceptable (edfaL ramanL : List (Cand α)) : Option (List (Cand α)) :=
+  let gainOk := (edfaL ++ ramanL).filter (fun x => decide (Edfa.zero < x.gainMin))
+  if gainOk.isEmpty then
+    if edfaL.isEmpty then none else some (powerStage edfaL)
+  else some (powerStage gainOk)
+
+def nfLt : Option α → Option α → Bool
+  | none, none => false
+  | none, some _ => true
+  | some _, none => false
+  | some x, some y => decide (x < y)
+
+/-- Python `min(l, key=attrgetter('nf'))`: the first minimum -/
+def argminNf : List (Cand α) → Option (Cand α)
+  | [] => none
+  | c :: cs => some (cs.foldl (fun best x => if nfLt x.nf best.nf then x else best) c)
+
+structure Choice (α : Type) where
+  variety : String
+  powerReduction : α
+  nf : Option α
+  power : α
+  gainMin : α
+
+/-- `select_edfa(raman_allowed, gain_target, power_target, edfa_eqpt, uid, target_extended_gain)`;
+`none` = ConfigurationError -/
+def selectEdfa (lib : List (AmpSpec α)) (ramanOk : Bool) (gain power ext : α) : Option (Choice α) :=
+  match acceptable (edfaList lib gain power ext) (ramanList lib ramanOk gain power ext) with
+  | none => none
+  | some l =>
+    match argminNf l with
+    | none => none
+    | some c => some { variety := c.variety, powerReduction := smin c.power Edfa.zero, nf := c.nf,
+                       power := c.power, gainMin := c.gainMin }
+
+/-- the library `set_one_amplifier` hands to `select_edfa`: no multiband entries, and — when the restriction
+list is non-empty — only its members -/
+def selectionLibrary (lib : List (AmpSpec α)) (restrictions : List String) : List (AmpSpec α) :=
+  let single := lib.filter (fun a => !a.isMulti)
+  if restrictions.isEmpty then single else single.filter (fun a => restrictions.contains a.name)
+
+/-! ### multiband preselection (`preselect_multiband_amps`, `find_type_varieties`) -/
+
+/-- insertion-ordered de-duplication (what building a dict from a comprehension does to its keys) -/
+def dedup : List String → List String
+  | [] => []
+  | x :: xs => x :: (dedup xs).filter (fun y => y != x)
+
+/-- `find_type_varieties(amps, equipment)`: for every single-band name the multiband entries listing it -/
+def findTypeVarieties (lib : List (AmpSpec α)) (amps : List String) : List (List String) :=
+  amps.map (fun t => (lib.filter (fun m => (m.multiBand.getD []).contains t)).map (fun m => m.name))
+
+structure BandTarget (α : Type) where
+  band : Band
+  gain : α
+  power : α
+
+def membersOf (lib : List (AmpSpec α)) (ms : List String) : List String :=
+  ms.flatMap (fun m => match lookup lib m with
+    | some a => a.multiBand.getD []
+    | none => [])
+
+/-- the single-band models offered to the filter for one band: members of the selected multiband entries
+(first occurrence order, as the dict comprehension keeps them) that cover the band -/
+def bandEqpt (lib : List (AmpSpec α)) (selected : List String) (b : Band) : List (AmpSpec α) :=
+  (dedup (membersOf lib selected)).filterMap (fun t => match lookup lib t with
+    | some a => if a.covers b then some a else none
+    | none => none)
+
+/-- one band of the loop of `preselect_multiband_amps` (repaired behaviour, fix F10): of the multiband entries
+selected so far keep those that list a model accepted for this band; `none` = ConfigurationError of the filter -/
+def preselectStep (lib : List (AmpSpec α)) (ext : α) (selected : List String) (bt : BandTarget α) :
+    Option (List String) :=
+  let eqpt := bandEqpt lib selected bt.band
+  match acceptable (edfaList eqpt bt.gain bt.power ext) (ramanList eqpt true bt.gain bt.power ext) with
+  | none => none
+  | some l =>
+    let found := (findTypeVarieties lib (l.map (fun c => c.variety))).flatten
+    some (selected.filter (fun m => found.contains m))
+
+/-- the same step as the code had it before fix F10: the selected entries were REPLACED by every multiband
+entry of the whole library that lists an accepted model -/
+def preselectStepOld (lib : List (AmpSpec α)) (ext : α) (selected : List String) (bt : BandTarget α) :
+    Option (List String) :=
+  let eqpt := bandEqpt lib selected bt.band
+  match acceptable (edfaList eqpt bt.gain bt.power ext) (ramanList eqpt true bt.gain bt.power ext) with
+  | none => none
+  | some l => some (dedup ((findTypeVarieties lib (l.map (fun c => c.variety))).flatten))
+
+def preselectLoop (lib : List (AmpSpec α)) (ext : α) : List String → List (BandTarget α) → Option (List String)
+  | sel, [] => some sel
+  | sel, bt :: bts =>
+    match preselectStep lib ext sel bt with
+    | none => none
+    | some sel' => preselectLoop lib ext sel' bts
+
+/-- `preselect_multiband_amps`: the single-band names of the multiband entries surviving all bands -/
+def preselect (lib : List (AmpSpec α)) (ext : α) (restrictions : List String) (bts : List (BandTarget α)) :
+    Option (List String) :=
+  (preselectLoop lib ext restrictions bts).map (membersOf lib)
+
+end
+end Gnpy.Select
